@@ -14,6 +14,7 @@ use domain::net::client::request::{ComposeRequest, Error, GetResponse, RequestMe
 use domain::rdata::AllRecordData;
 use domain::dep::octseq::OctetsBuilder;
 use dv_harness::*;
+use std::collections::HashMap;
 use std::fmt::Write as _;
 use std::future::Future;
 use std::pin::Pin;
@@ -186,7 +187,8 @@ impl QObs {
 #[derive(Clone)]
 struct LogEntry { q: QObs, req_id: u16, t_ms: u64, resp: RResp, raw: Option<Bytes>, delay_ms: u64 }
 
-struct MockState { next: Option<(RespSpec, u64)>, log: Vec<LogEntry>, honest: bool, t0: tokio::time::Instant }
+/// `next`: what to answer (and after how long) to the request with the given header ID
+struct MockState { next: HashMap<u16, (RespSpec, u64)>, log: Vec<LogEntry>, honest: bool, t0: tokio::time::Instant }
 
 #[derive(Clone)]
 struct Mock(Arc<Mutex<MockState>>);
@@ -266,7 +268,7 @@ impl GetResponse for MockReq {
             let q = observe_query(&msg);
             let (spec, delay, honest) = {
                 let mut st = self.mock.0.lock().unwrap();
-                let (s, d) = st.next.take().unwrap_or((RespSpec::Err(4), 0));
+                let (s, d) = st.next.remove(&msg.header().id()).unwrap_or((RespSpec::Err(4), 0));
                 (s, d, st.honest)
             };
             if delay > 0 { tokio::time::sleep(Duration::from_millis(delay)).await; }
@@ -301,7 +303,7 @@ fn build_query(q: &QSpec, id: u16) -> RequestMessage<Vec<u8>> {
 
 fn qflags(q: &QSpec) -> u32 { q.rd as u32 | (q.cd as u32) << 1 | (q.ad as u32) << 2 | (q.do_ as u32) << 3 }
 
-async fn run_history(cfg: Cfg, evs: Vec<Ev>, trace: Arc<Mutex<Trace>>, mock: Mock) {
+fn make_conn(cfg: &Cfg, mock: &Mock) -> cache::Connection<Mock> {
     let mut c = cache::Config::new();
     if !cfg.dflt {
         c.set_max_validity(Duration::from_secs(cfg.raw[0]));
@@ -313,17 +315,66 @@ async fn run_history(cfg: Cfg, evs: Vec<Ev>, trace: Arc<Mutex<Trace>>, mock: Moc
         c.set_cache_truncated(cfg.trunc);
     }
     if let Some(n) = cfg.entries { c.set_max_cache_entries(n); }
+    // the untouched default configuration goes through Connection::new
+    if cfg.dflt && cfg.entries.is_none() { cache::Connection::new(mock.clone()) } else { cache::Connection::with_config(mock.clone(), c) }
+}
+
+/// Concurrency (oracle only): the events are issued in batches of 1..3 requests that are in flight
+/// at the same time on one Connection (the upstream answers after its scripted delay).
+async fn run_concurrent(cfg: Cfg, evs: Vec<Ev>, batches: Vec<usize>, trace: Arc<Mutex<Trace>>, mock: Mock) {
     let t0 = tokio::time::Instant::now();
     mock.0.lock().unwrap().t0 = t0;
-    // the untouched default configuration goes through Connection::new
-    let conn = if cfg.dflt && cfg.entries.is_none() { cache::Connection::new(mock.clone()) } else { cache::Connection::with_config(mock.clone(), c) };
+    let conn = make_conn(&cfg, &mock);
+    let mut i = 0usize;
+    for b in batches {
+        let batch: Vec<(usize, &Ev)> = (i..(i + b).min(evs.len())).map(|j| (j, &evs[j])).collect();
+        i += b;
+        if batch.is_empty() { break; }
+        if batch[0].1.gap_ms > 0 { tokio::time::advance(Duration::from_millis(batch[0].1.gap_ms)).await; }
+        let mut reqs = vec![];
+        for (j, ev) in &batch {
+            mock.0.lock().unwrap().next.insert(1000 + *j as u16, (ev.resp.clone(), ev.delay_ms));
+            let reqmsg = build_query(&ev.q, 1000 + *j as u16);
+            let qobs = observe_query(&reqmsg.to_message().unwrap());
+            reqs.push((*j, qobs, conn.send_request(reqmsg)));
+        }
+        let results = futures_util::future::join_all(reqs.iter_mut().map(|(j, q, r)| { let (j, q) = (*j, q.clone()); async move {
+            let res = r.get_response().await;
+            (j, q, res, (tokio::time::Instant::now() - t0).as_millis() as u64)
+        }})).await;
+        let st = mock.0.lock().unwrap();
+        let mut tr = trace.lock().unwrap();
+        for (j, qobs, res, done_ms) in results {
+            if let Some(le) = st.log.iter().find(|le| le.req_id == 1000 + j as u16) {
+                let same = match (&res, &le.raw, &le.resp) {
+                    (Ok(m), Some(raw), _) => m.as_slice() == raw.as_ref(),
+                    (Err(e), None, RResp::Err(c)) => err_code(e) == *c,
+                    (Err(e), Some(_), RResp::Msg(um)) => um.broken && err_code(e) == 20,
+                    _ => false,
+                };
+                tr.obs.push("F".into());
+                if !same { tr.altered.push(format!("event {}", j)); }
+            } else {
+                let r = render(&res);
+                tr.obs.push(format!("S {}", resp_obs(&r)));
+                tr.nserved += 1;
+                tr.served.push(Served { q: qobs, now_ms: done_ms, resp: r, log_len: st.log.len() });
+            }
+        }
+    }
+}
+
+async fn run_history(cfg: Cfg, evs: Vec<Ev>, trace: Arc<Mutex<Trace>>, mock: Mock) {
+    let t0 = tokio::time::Instant::now();
+    mock.0.lock().unwrap().t0 = t0;
+    let conn = make_conn(&cfg, &mock);
     for (i, ev) in evs.iter().enumerate() {
         if ev.gap_ms > 0 { tokio::time::advance(Duration::from_millis(ev.gap_ms)).await; }
         let now_ms = (tokio::time::Instant::now() - t0).as_millis() as u64;
         let qw = format!("q {} {} {} {} {} {}", NAMES[ev.q.name].1, ev.q.class, ev.q.rtype, qflags(&ev.q), ev.q.opcode, now_ms);
         let before = {
             let mut st = mock.0.lock().unwrap();
-            st.next = Some((ev.resp.clone(), ev.delay_ms));
+            st.next.insert(1000 + i as u16, (ev.resp.clone(), ev.delay_ms));
             st.log.len()
         };
         trace.lock().unwrap().cur = Some((qw.clone(), before));
@@ -446,6 +497,15 @@ fn violations(eff: &[u64; 6], trunc: bool, s: &Served, u: &LogEntry) -> Vec<(&'s
             let bound = class_cap(eff, trunc, um).min(min_ttl);
             if elapsed > bound * 1000 { v.push(("served_stale", format!("served after {} ms, bound {} s", elapsed, bound))); }
         }
+        (RResp::Err(20), RResp::Msg(um)) if um.has_bad() => {
+            // The cache could not rebuild the cached message (a record whose RDATA does not parse):
+            // the caller gets MessageParseError in its place.  That stands for the upstream message
+            // and is held to the same freshness bound.
+            let strip = uq.do_ && !q.do_;
+            let min_ttl = um.secs.iter().flatten().filter(|r| r.rtype != 41 && !(strip && DNSSEC_TYPES.contains(&r.rtype))).map(|r| r.ttl as u64).min().unwrap_or(u64::MAX);
+            let bound = class_cap(eff, trunc, um).min(min_ttl);
+            if elapsed > bound * 1000 { v.push(("stale_parse_error", format!("parse error for an unparsable cached message served after {} ms, bound {} s", elapsed, bound))); }
+        }
         _ => v.push(("served_not_received", "message vs error".into())),
     }
     v
@@ -458,7 +518,9 @@ fn judge(eff: &[u64; 6], trunc: bool, s: &Served, log: &[LogEntry]) -> Option<(&
     let mut best: Option<Vec<(&'static str, String)>> = None;
     for u in log[..s.log_len].iter().filter(|u| u.q.cacheable() && u.q.name == s.q.name && u.q.class == s.q.class && u.q.rtype == s.q.rtype) {
         let v = violations(eff, trunc, s, u);
-        if best.as_ref().map_or(true, |b| v.len() < b.len()) { best = Some(v); }
+        // fewest violations first; among equals prefer a candidate that at least has the content right
+        let rank = |v: &Vec<(&'static str, String)>| (v.len(), v.first().map_or(false, |x| x.0 == "served_not_received"));
+        if best.as_ref().map_or(true, |b| rank(&v) < rank(b)) { best = Some(v); }
         if best.as_ref().unwrap().is_empty() { break; }
     }
     match best {
@@ -688,6 +750,28 @@ fn corpus() -> Vec<(Cfg, Vec<Ev>)> {
     v.push((dflt.clone(), vec![
         ev(0, qs(0, 1, 1), RespSpec::Msg { rcode: 2, aa: false, tc: false, ad: false, noq: true, recs: vec![], broken: false, ext: None, opt_data: false }),
         ev(1000, qs(0, 1, 1), none.clone()), ev(30_000, qs(0, 1, 1), none.clone())]));
+    // an answer to a DO request with one record whose RDATA does not parse: requests without DO
+    // must not get a parse error out of the cache once the entry has expired (60 s)
+    v.push((dflt.clone(), vec![
+        ev(0, qs(0, 1, 1 | 8), msg(0, false, false, vec![a_rec(0, 1, 60, false, 1), bad_rec(0, 1, 60, false, 2), a_rec(0, 46, 60, false, 3)])),
+        ev(1000, qs(0, 1, 1), msg(0, false, false, vec![a_rec(0, 1, 60, false, 4)])),
+        ev(60_001, qs(0, 1, 0), msg(0, false, false, vec![a_rec(0, 1, 60, false, 5)])),
+        ev(1_000_000_000, qs(0, 1, 4), msg(0, false, false, vec![a_rec(0, 1, 60, false, 6)]))]));
+    // the same record under the exact key: MessageParseError in place of the entry while it is fresh, then upstream again
+    v.push((dflt.clone(), vec![
+        ev(0, qs(0, 1, 1), msg(0, false, false, vec![a_rec(0, 1, 60, false, 1), bad_rec(2, 28, 90, true, 2)])),
+        ev(1000, qs(0, 1, 1), none.clone()), ev(59_000, qs(0, 1, 0), none.clone()),
+        ev(1, qs(0, 1, 1), msg(0, false, false, vec![a_rec(0, 1, 60, false, 3)])), ev(1000, qs(0, 1, 1), none.clone())]));
+    // a message whose sections cannot be walked: the caller gets the error, nothing is cached; with TC it passes through
+    v.push((dflt.clone(), vec![
+        ev(0, qs(0, 1, 1), RespSpec::Msg { rcode: 0, aa: false, tc: false, ad: false, noq: false, recs: vec![a_rec(0, 1, 60, false, 1)], broken: true, ext: None, opt_data: false }),
+        ev(0, qs(0, 1, 1), RespSpec::Msg { rcode: 0, aa: false, tc: true, ad: false, noq: false, recs: vec![a_rec(0, 1, 60, false, 2)], broken: true, ext: None, opt_data: false }),
+        ev(0, qs(0, 1, 1), msg(0, false, false, vec![a_rec(0, 1, 60, false, 3)])), ev(1000, qs(0, 1, 1), none.clone())]));
+    // extended rcode BADVERS (16) in an OPT record: header rcode NOERROR, but cached as an error for misc_error_duration (30 s);
+    // the OPT record with its option is served as stored
+    v.push((dflt.clone(), vec![
+        ev(0, qs(0, 1, 1), RespSpec::Msg { rcode: 0, aa: false, tc: false, ad: false, noq: false, recs: vec![a_rec(0, 1, 600, false, 1)], broken: false, ext: Some(16), opt_data: true }),
+        ev(30_000, qs(0, 1, 0), none.clone()), ev(1, qs(0, 1, 1), none.clone())]));
     // zero TTL, weird NOERROR, OPT in the additional section is not aged
     v.push((dflt.clone(), vec![
         ev(0, qs(0, 1, 1), msg(0, false, false, vec![a_rec(0, 1, 0, false, 1)])), ev(0, qs(0, 1, 1), msg(0, false, false, vec![])),
@@ -698,12 +782,14 @@ fn corpus() -> Vec<(Cfg, Vec<Ev>)> {
 
 // ---------- main ---------------------------------------------------------------------------------------
 
-fn execute(cfg: &Cfg, evs: &[Ev]) -> (Trace, Vec<LogEntry>, bool) {
+fn execute(cfg: &Cfg, evs: &[Ev]) -> (Trace, Vec<LogEntry>, bool) { execute_with(cfg, evs, None) }
+
+fn execute_with(cfg: &Cfg, evs: &[Ev], batches: Option<Vec<usize>>) -> (Trace, Vec<LogEntry>, bool) {
     let trace = Arc::new(Mutex::new(Trace::default()));
     let rt = tokio::runtime::Builder::new_current_thread().enable_time().start_paused(true).build().unwrap();
-    let mock = Mock(Arc::new(Mutex::new(MockState { next: None, log: vec![], honest: cfg.honest, t0: rt.block_on(async { tokio::time::Instant::now() }) })));
+    let mock = Mock(Arc::new(Mutex::new(MockState { next: HashMap::new(), log: vec![], honest: cfg.honest, t0: rt.block_on(async { tokio::time::Instant::now() }) })));
     let (c2, e2, t2, m2) = (cfg.clone(), evs.to_vec(), trace.clone(), mock.clone());
-    let res = catch_mut(move || rt.block_on(run_history(c2, e2, t2, m2)));
+    let res = catch_mut(move || match batches { None => rt.block_on(run_history(c2, e2, t2, m2)), Some(b) => rt.block_on(run_concurrent(c2, e2, b, t2, m2)) });
     let log = match mock.0.lock() { Ok(g) => g.log.clone(), Err(p) => p.into_inner().log.clone() };
     let mut tr = match trace.lock() { Ok(mut g) => std::mem::take(&mut *g), Err(p) => std::mem::take(&mut *p.into_inner()) };
     let panicked = res.is_err();
@@ -778,6 +864,38 @@ fn main() {
         oracle(&mut out, &case, &cfg, &tr, &log);
         small_served += tr.nserved as u64;
     }
-    out.finish(&[("served_from_cache", served_total.to_string()), ("served_with_records", served_records.to_string()),
+    // requests in flight at the same time on one Connection (oracle only)
+    let n_conc = if a.thorough { 6_000 } else { 500 } * a.scale;
+    let (mut conc_served, mut conc_double) = (0u64, 0u64);
+    for _ in 0..n_conc {
+        let k = r.below(3);
+        let cfg = gen_cfg(&mut r, k);
+        let len = r.range(4, 20) as usize;
+        let mut evs = gen_history(&mut r, &cfg, len);
+        // identical questions in a batch are what matters: copy the question of the batch head, vary flags a little
+        let mut batches = vec![];
+        let mut i = 0;
+        while i < evs.len() {
+            let b = r.range(1, 3) as usize;
+            for j in i + 1..(i + b).min(evs.len()) {
+                if r.chance(2, 3) { evs[j].q = evs[i].q.clone(); if r.chance(1, 3) { evs[j].q.rd = !evs[j].q.rd; } if r.chance(1, 4) { evs[j].q.do_ = !evs[j].q.do_; } }
+            }
+            for j in i..(i + b).min(evs.len()) { evs[j].delay_ms = *r.pick(&[0u64, 1, 400, 1000, 1500]); }
+            batches.push(b); i += b;
+        }
+        idx += 1;
+        if !out.wants(idx) { continue; }
+        let label = format!("concurrent#{} seed={}", idx, a.seed);
+        out.begin(&label);
+        let (tr, log, panicked) = execute_with(&cfg, &evs, Some(batches.clone()));
+        let case = format!("{} batches={:?} obs={}", label, batches, tr.obs.join(","));
+        out.oracle_case(&case, tr.nserved > 0, "concurrent");
+        out.check(!panicked, panic_class(&log), &case, "panic while running the history");
+        oracle(&mut out, &case, &cfg, &tr, &log);
+        conc_served += tr.nserved as u64;
+        // identical requests in flight together both reach upstream (there is no single-flight)
+        for w in log.windows(2) { if w[0].q.name == w[1].q.name && w[0].q.rtype == w[1].q.rtype && w[0].t_ms.abs_diff(w[1].t_ms) <= 1500 { conc_double += 1; } }
+    }
+    out.finish(&[("served_concurrent", conc_served.to_string()), ("concurrent_same_question_both_upstream", conc_double.to_string()), ("served_from_cache", served_total.to_string()), ("served_with_records", served_records.to_string()),
         ("forwarded", forwarded.to_string()), ("served_small_capacity", small_served.to_string())]);
 }
